@@ -7,8 +7,12 @@ cd $wt || exit 3
 git diff --quiet && { echo "$id: worktree has no change"; exit 3; }
 go build ./... || { echo "$id: does not build"; exit 1; }
 python3 /verif/lib/baseline_check.py $wt | tail -1
-( cd $out/demo && timeout 600 bash ./run.sh >/tmp/seedconfirm_with.log 2>&1 ); rc_with=$?
-git diff > /tmp/seedconfirm.patch; git apply -R /tmp/seedconfirm.patch
-( cd $out/demo && timeout 600 bash ./run.sh >/tmp/seedconfirm_without.log 2>&1 ); rc_without=$?
-git apply /tmp/seedconfirm.patch
+# demos that use a prebuilt binary expect it at $out/wire: rebuild it from the worktree in either state
+[ -e $out/wire ] && go build -o $out/wire ./cmd/wire
+( cd $out/demo && timeout 600 bash ./run.sh >/tmp/seedconfirm_${id}_with.log 2>&1 ); rc_with=$?
+git diff > /tmp/seedconfirm_$id.patch; git apply -R /tmp/seedconfirm_$id.patch
+[ -e $out/wire ] && go build -o $out/wire ./cmd/wire
+( cd $out/demo && timeout 600 bash ./run.sh >/tmp/seedconfirm_${id}_without.log 2>&1 ); rc_without=$?
+git apply /tmp/seedconfirm_$id.patch
+[ -e $out/wire ] && go build -o $out/wire ./cmd/wire
 echo "$id: demo rc with change=$rc_with, without=$rc_without"
